@@ -4,6 +4,7 @@ package main
 
 import (
 	"context"
+	"errors"
 	"fmt"
 	"runtime"
 	"strings"
@@ -64,6 +65,32 @@ type regHandle struct {
 	inst         asyncHandle
 }
 
+// refusingProvider wraps the SDK's MeterProvider and refuses every instrument whose name starts with
+// "refused" the way a policy-enforcing provider might: (nil, error).
+type refusingProvider struct{ metric.MeterProvider }
+
+func (p refusingProvider) Meter(name string, opts ...metric.MeterOption) metric.Meter {
+	return refusingMeter{p.MeterProvider.Meter(name, opts...)}
+}
+
+type refusingMeter struct{ metric.Meter }
+
+var errRefused = errors.New("instrument refused by policy")
+
+func (m refusingMeter) Int64Counter(name string, opts ...metric.Int64CounterOption) (metric.Int64Counter, error) {
+	if strings.HasPrefix(name, "refused") {
+		return nil, errRefused
+	}
+	return m.Meter.Int64Counter(name, opts...)
+}
+
+func (m refusingMeter) Int64ObservableGauge(name string, opts ...metric.Int64ObservableGaugeOption) (metric.Int64ObservableGauge, error) {
+	if strings.HasPrefix(name, "refused") {
+		return nil, errRefused
+	}
+	return m.Meter.Int64ObservableGauge(name, opts...)
+}
+
 var kindNames = []string{"i64counter", "f64counter", "i64updown", "f64updown", "i64hist", "f64hist", "i64gauge", "f64gauge"}
 
 func runTrial(k *vf.Case) {
@@ -72,7 +99,16 @@ func runTrial(k *vf.Case) {
 	runtime.GOMAXPROCS(procs)
 	ctx := context.Background()
 	reader := sdkmetric.NewManualReader()
-	smp := sdkmetric.NewMeterProvider(sdkmetric.WithReader(reader))
+	reader2 := sdkmetric.NewManualReader()
+	smp := sdkmetric.NewMeterProvider(sdkmetric.WithReader(reader), sdkmetric.WithReader(reader2))
+	// in one trial of five the provider that gets installed wraps the SDK and refuses some instruments with
+	// (nil, error), as a policy-enforcing provider would: installation must cope, the rest must be connected
+	var toInstall metric.MeterProvider = smp
+	refusing := r.Chance(1, 5)
+	if refusing {
+		toInstall = refusingProvider{smp}
+		k.C.Count("trials_with_a_refusing_provider", 1)
+	}
 	sink := &spanSink{names: map[string]int{}}
 	stp := sdktrace.NewTracerProvider(sdktrace.WithSpanProcessor(sink), sdktrace.WithSampler(sdktrace.AlwaysSample()))
 
@@ -214,6 +250,16 @@ func runTrial(k *vf.Case) {
 	}
 	// ---- pre-installation population
 	pre := vf.NewRNG(r.U64())
+	var refusedHandles []func()
+	if refusing {
+		for i := 1 + r.Intn(4); i > 0; i-- {
+			m := otel.Meter(meterName(r.Intn(nMeters)))
+			c, _ := m.Int64Counter(fmt.Sprintf("refused_%d", i))
+			g, _ := m.Int64ObservableGauge(fmt.Sprintf("refused_obs_%d", i))
+			_ = g
+			refusedHandles = append(refusedHandles, func() { c.Add(ctx, 1) })
+		}
+	}
 	for i := r.Intn(400); i > 0; i-- {
 		createSync(pre)
 	}
@@ -274,7 +320,7 @@ func runTrial(k *vf.Case) {
 			time.Sleep(d)
 			guard(func() {
 				installCall.CompareAndSwap(0, vf.Tick())
-				otel.SetMeterProvider(smp)
+				otel.SetMeterProvider(toInstall)
 				otel.SetTracerProvider(stp)
 				otel.SetTextMapPropagator(propagation.TraceContext{})
 				installRet.CompareAndSwap(0, vf.Tick())
@@ -391,6 +437,19 @@ func runTrial(k *vf.Case) {
 		}
 		sp.End()
 	}
+	// a context that is already done is no reason not to forward
+	dead, cancelDead := context.WithCancel(ctx)
+	cancelDead()
+	for i, t := range tracers {
+		_, sp := t.Start(dead, fmt.Sprintf("post-dead-%d", i))
+		if !sp.IsRecording() {
+			k.Violate("tracer-not-forwarding", "done context", fmt.Sprintf("%s\ntracer %q yields a non-recording span when started with a cancelled context", cfg, tracerNames[i]), nil)
+		}
+		sp.End()
+	}
+	for _, f := range refusedHandles {
+		f() // instruments the provider refused stay harmless no-ops
+	}
 	// a late instrument and registration must work too
 	createSync(pre)
 	last := syncs[len(syncs)-1]
@@ -480,7 +539,55 @@ func runTrial(k *vf.Case) {
 			}
 		}
 	}
+	// both readers collecting at the same time: each runs every live callback with an observer of its own and
+	// must see every live registration's observation
+	{
+		var cwg sync.WaitGroup
+		start := make(chan struct{})
+		var lostMu sync.Mutex
+		lost := ""
+		for ri, rd := range []*sdkmetric.ManualReader{reader, reader2} {
+			cwg.Add(1)
+			go func(ri int, rd *sdkmetric.ManualReader) {
+				defer cwg.Done()
+				<-start
+				for round := 0; round < 3; round++ {
+					var rm metricdata.ResourceMetrics
+					if err := rd.Collect(ctx, &rm); err != nil {
+						continue
+					}
+					obsSeen := map[string]bool{}
+					for _, sm := range rm.ScopeMetrics {
+						for _, m := range sm.Metrics {
+							if strings.HasPrefix(m.Name, "obs_") {
+								obsSeen[m.Name] = true
+							}
+						}
+					}
+					for _, rh := range regs {
+						if !rh.unregistered && !rh.rejected && !obsSeen[rh.inst.name] {
+							lostMu.Lock()
+							lost = fmt.Sprintf("reader %d, concurrent collection %d: observable %s of a live registration reported nothing", ri+1, round+1, rh.inst.name)
+							lostMu.Unlock()
+							break
+						}
+					}
+				}
+			}(ri, rd)
+		}
+		close(start)
+		cwg.Wait()
+		if lost != "" {
+			k.Violate("observation-after-install-lost", "readers collecting concurrently", cfg+"\n"+lost, nil)
+		}
+	}
 	sink.mu.Lock()
+	for i := range tracers {
+		if sink.names[fmt.Sprintf("post-dead-%d", i)] != 1 {
+			k.Violate("span-after-install-lost", "done context", fmt.Sprintf("%s\nspan post-dead-%d reached the SDK %d times", cfg, i, sink.names[fmt.Sprintf("post-dead-%d", i)]), nil)
+			break
+		}
+	}
 	for i := range tracers {
 		if sink.names[fmt.Sprintf("post-%d", i)] != 1 {
 			k.Violate("span-after-install-lost", "", fmt.Sprintf("%s\nspan post-%d reached the SDK %d times", cfg, i, sink.names[fmt.Sprintf("post-%d", i)]), nil)
